@@ -242,6 +242,11 @@ func bindFeatures(t, j map[string]interface{}) map[string]bool {
 	}
 	walkT(t)
 	walkJ(j)
+	for _, k := range []string{"i16", "i32", "i64", "u16", "u32", "u64", "uint"} {
+		if f["map_"+k] {
+			f["map_intkey"] = true
+		}
+	}
 	if f["map_int"] || f["map_i8"] || f["map_u8"] {
 		f["map_intkey"] = true
 	}
